@@ -176,3 +176,130 @@ for _g, (_fr, _inc, _outs) in GRAPHS.items():
             got = {int(f.name[6:]) for f in in_modules.get(folded[gi], [])}
             vc.ensure(f"group{gi}.graph_edges", got == want)
     obligation(f"C02.build_folded_graph.{_g}", "C02", [f"{FO}:build_folded_graph", f"{FO}:group_foldable_modules"])(_h)
+
+
+# ------------------------------------------------------------------------------------------------ parameter graphs: one index PER OPERAND
+PSHAPES = [(1, 1), (2, 1), (3, 1), (1, 2), (2, 2)]
+
+for _F, _H in PSHAPES:
+    for _k in (1, 2):
+        for _pi, _pat in enumerate(_patterns(_F * _H, _k)):
+            if _pi >= 6:
+                break
+
+            def _h(vc, _F=_F, _H=_H, _k=_k, _pat=_pat):
+                """build_address_book_entry: operand h of the F folds of a parameter node is gathered from the concatenation of the outputs of
+                in_module_ids[h] (first-occurrence order over the folds) with index in_fold_idx[h]; `()` (no indexing) stands for the identity and
+                is allowed only when the F folds read ALL folds of one feeding node in order"""
+                mids = [10 + 3 * j for j in range(_k)]
+                nf = {m: vc.int(f"folds_of_{m}", lo=1) for m in mids}
+                entries = []
+                for f in range(_F):
+                    row = []
+                    for h in range(_H):
+                        m = mids[_pat[f * _H + h]]
+                        j = vc.int(f"j{f}{h}", lo=0)
+                        vc.assume(j < nf[m])
+                        row.append((m, j))
+                    entries.append(row)
+                module = vc.opaque("node")
+                e = vc.call(f"{FO}:build_address_book_entry", module, entries, num_folds=dict(nf))
+                ok = isinstance(e, Obj) and e.cls.name == "AddressBookEntry"
+                vc.ensure("entry", ok)
+                if not ok:
+                    return
+                vc.ensure("module", e.fields["module"] is module)
+                ids, idx = e.fields["in_module_ids"], e.fields["in_fold_idx"]
+                vc.ensure("one_module_list_and_one_index_per_operand", len(ids) == _H and len(idx) == _H)
+                if not (len(ids) == _H and len(idx) == _H):
+                    return
+                for h in range(_H):
+                    first = list(dict.fromkeys(entries[f][h][0] for f in range(_F)))
+                    good = list(ids[h]) == first
+                    vc.ensure(f"operand{h}.module_ids_distinct_in_first_occurrence_order", good)
+                    if not good:
+                        continue
+                    offs, acc = {}, 0
+                    for m in first:
+                        offs[m] = acc
+                        acc = acc + nf[m]
+                    ix = idx[h]
+                    if isinstance(ix, IntTensorConst):
+                        eff = list(B.iterate(vc.I, ix.values))
+                        vc.ensure(f"operand{h}.index_length", len(eff) == _F)
+                    elif ix == ():
+                        # t[()] is t itself: the node must consume exactly the stacked folds, in order
+                        vc.ensure(f"operand{h}.no_indexing_only_for_the_identity", to_z3(acc) == _F)
+                        eff = list(range(_F))
+                    else:
+                        vc.ensure(f"operand{h}.index_form_understood", False)
+                        continue
+                    if len(eff) != _F:
+                        continue
+                    for f in range(_F):
+                        m, j = entries[f][h]
+                        vc.ensure(f"operand{h}.fold{f}.points_at_its_feeding_node_and_fold", to_z3(eff[f]) == to_z3(offs[m] + j))
+            obligation(f"C01.address_book.entry.{_F}x{_H}.modules{_k}.pattern{_pi}", "C01", [f"{FO}:build_address_book_entry"])(_h)
+
+
+# ------------------------------------------------------------------------------------------------ from_index_info (both address books)
+CI_ = "cirkit/backend/torch/circuits.py"
+PP_ = "cirkit/backend/torch/parameters/parameter.py"
+
+for _which in ("layers", "parameters"):
+    for _n in (1, 2, 3):
+        def _h(vc, _which=_which, _n=_n):
+            """one entry per module of the ordering, in order, built from the module's own fold index information and from the fold counts of
+            EXACTLY the modules before it (module id = position in the ordering); modules without inputs get an empty entry; a last entry
+            gathers the outputs with the fold counts of all modules"""
+            from engine.values import Opaque, Builtin
+            mods = [Opaque(f"m{i}", {"num_folds": vc.int(f"F{i}", lo=1)}) for i in range(_n)]
+            has_in = [False] + [True] * (_n - 1)
+            infold = {i: ([[(i - 1, 0)]] if has_in[i] else []) for i in range(_n)}
+            out_fold = [(_n - 1, 0), (0, 0)]
+            info = Opaque("fold_idx_info", {"ordering": list(mods), "in_fold_idx": infold, "out_fold_idx": out_fold})
+            calls = []
+
+            def builder(kind):
+                def f(I, a, k):
+                    e = Opaque(f"entry{len(calls)}")
+                    calls.append((kind, a[0], a[1], dict(k.get("num_folds")), bool(k.get("output", False)), e))
+                    return e
+                return f
+            vc.I.summaries[f"{FO}:build_address_book_stacked_entry"] = builder("stacked")
+            vc.I.summaries[f"{FO}:build_address_book_entry"] = builder("per_operand")
+            empties, books = [], []
+
+            def entry_ctor(I, a, k):
+                e = Opaque(f"empty{len(empties)}")
+                empties.append((a, e))
+                return e
+            vc.I.summaries["cirkit/backend/torch/graph/modules.py:AddressBookEntry"] = entry_ctor
+            cls_q = f"{CI_}:LayerAddressBook" if _which == "layers" else f"{PP_}:ParameterAddressBook"
+            vc.I.summaries[cls_q] = lambda I, a, k: books.append(list(a[0])) or Opaque("book")
+            from engine.values import ClassVal
+            kw = {"incomings_fn": Builtin("incomings_fn", lambda m: [mods[mods.index(m) - 1]] if has_in[mods.index(m)] else [])} if _which == "layers" else {}
+            vc.call(f"{cls_q}.from_index_info", info, **kw)
+            vc.ensure("one_book_built", len(books) == 1)
+            if len(books) != 1:
+                return
+            ent = books[0]
+            vc.ensure("one_entry_per_module_plus_the_output_entry", len(ent) == _n + 1)
+            want_kind = "stacked" if _which == "layers" else "per_operand"
+            per_module = [c for c in calls if not c[4]]
+            vc.ensure("modules_with_inputs_get_a_built_entry_in_order", [c[1] for c in per_module] == [m for i, m in enumerate(mods) if has_in[i]] and all(c[0] == want_kind for c in per_module))
+            for c in per_module:
+                i = mods.index(c[1])
+                vc.ensure(f"m{i}.own_index_information", c[2] is infold[i])
+                vc.ensure(f"m{i}.fold_counts_of_exactly_the_earlier_modules", sorted(c[3]) == list(range(i)) and all(vc.must(to_z3(c[3][j]) == to_z3(mods[j].attrs["num_folds"])) for j in range(i)))
+            vc.ensure("modules_without_inputs_get_an_empty_entry", len(empties) == 1 and empties[0][0][0] is mods[0] and list(empties[0][0][1]) == [] and list(empties[0][0][2]) == [])
+            outs = [c for c in calls if c[4]]
+            ok = len(outs) == 1 and outs[0][0] == "stacked" and outs[0][1] is None and list(outs[0][2]) == [out_fold]
+            vc.ensure("last_entry_gathers_the_declared_outputs", ok and ent[-1] is outs[0][5])
+            if ok:
+                vc.ensure("output_entry_sees_every_modules_fold_count", sorted(outs[0][3]) == list(range(_n)))
+            order = []
+            for i, m in enumerate(mods):
+                order.append(empties[0][1] if not has_in[i] else [c[5] for c in per_module if c[1] is m][0])
+            vc.ensure("entries_in_ordering_order", len(ent) == _n + 1 and all(a is b for a, b in zip(ent[:_n], order)))
+        obligation(f"C01.address_book.from_index_info.{_which}.n{_n}", "C01", [f"{CI_}:LayerAddressBook.from_index_info" if _which == "layers" else f"{PP_}:ParameterAddressBook.from_index_info"])(_h)
